@@ -86,12 +86,12 @@ Lemma on_message_dispatch_err c msg o s t :
   (forall s1, conn_of s1 c = conn_of s c ->
      dispatch cfg c t msg o s1 = Exn (XErr ErrOther) s1) ->
   on_message cfg c msg o s =
-    Ok tt (set_log s (LFrame c (FError ErrOther) (is_clean s) ::
-                      LFrame c (FAck (m_id msg)) (is_clean s) :: log s)).
+    Ok tt (set_log s (LFrame c (FError ErrOther msg) (is_clean s) (now s) ::
+                      LFrame c (FAck (m_id msg)) (is_clean s) (now s) :: log s)).
 Proof.
   intros Et Hd. unfold on_message. rewrite Et.
   unfold try_catch.
-  rewrite (bind_ok _ _ s tt (set_log s (LFrame c (FAck (m_id msg)) (is_clean s) :: log s)))
+  rewrite (bind_ok _ _ s tt (set_log s (LFrame c (FAck (m_id msg)) (is_clean s) (now s) :: log s)))
     by reflexivity.
   rewrite Hd by reflexivity.
   reflexivity.
@@ -101,12 +101,12 @@ Qed.
 Lemma on_message_dispatch_ok c msg o s t s' :
   m_type msg = Some t ->
   dispatch cfg c t msg o
-    (set_log s (LFrame c (FAck (m_id msg)) (is_clean s) :: log s)) = Ok tt s' ->
+    (set_log s (LFrame c (FAck (m_id msg)) (is_clean s) (now s) :: log s)) = Ok tt s' ->
   on_message cfg c msg o s = Ok tt s'.
 Proof.
   intros Et Hd. unfold on_message. rewrite Et.
   unfold try_catch.
-  rewrite (bind_ok _ _ s tt (set_log s (LFrame c (FAck (m_id msg)) (is_clean s) :: log s)))
+  rewrite (bind_ok _ _ s tt (set_log s (LFrame c (FAck (m_id msg)) (is_clean s) (now s) :: log s)))
     by reflexivity.
   rewrite Hd. reflexivity.
 Qed.
@@ -253,9 +253,9 @@ Qed.
 Theorem erroneous_harmless c msg o s :
   erroneous (conn_of s c) msg = true ->
   on_message cfg c msg o s =
-    Ok tt (set_log s (LFrame c (FError ErrOther) (is_clean s) ::
+    Ok tt (set_log s (LFrame c (FError ErrOther msg) (is_clean s) (now s) ::
                       (match m_type msg with
-                       | Some _ => [LFrame c (FAck (m_id msg)) (is_clean s)]
+                       | Some _ => [LFrame c (FAck (m_id msg)) (is_clean s) (now s)]
                        | None => []
                        end) ++ log s)).
 Proof.
@@ -271,8 +271,8 @@ Qed.
 Theorem ping_pong c msg o s v :
   m_type msg = Some TPing -> m_ping msg = Some v ->
   on_message cfg c msg o s =
-    Ok tt (set_log s (LFrame c (FPong v) (is_clean s) ::
-                      LFrame c (FAck (m_id msg)) (is_clean s) :: log s)).
+    Ok tt (set_log s (LFrame c (FPong v) (is_clean s) (now s) ::
+                      LFrame c (FAck (m_id msg)) (is_clean s) (now s) :: log s)).
 Proof.
   intros Et Ev.
   apply (on_message_dispatch_ok c msg o s TPing _ Et).
@@ -285,8 +285,8 @@ Theorem list_answer c msg o s a side :
   on_message cfg c msg o s =
     Ok tt (set_log s (LFrame c (FNameplates
                                   (ssort (if allow_list cfg then sel_names (chan_w s) a else [])))
-                             (is_clean s) ::
-                      LFrame c (FAck (m_id msg)) (is_clean s) :: log s)).
+                             (is_clean s) (now s) ::
+                      LFrame c (FAck (m_id msg)) (is_clean s) (now s) :: log s)).
 Proof.
   intros Et Eb.
   apply (on_message_dispatch_ok c msg o s TList _ Et).
@@ -299,7 +299,7 @@ Theorem welcome_first c s :
   has_conn c s = false ->
   step_b cfg s (EConnect c) =
     (set_log (set_conns s (conns s ++ [(c, new_conn)]))
-             (LFrame c FWelcome (is_clean s) :: log s), true, None).
+             (LFrame c (FWelcome (welcome cfg)) (is_clean s) (now s) :: log s), true, None).
 Proof.
   intros H. unfold step_b. rewrite H. reflexivity.
 Qed.
@@ -323,7 +323,7 @@ Proof.
   intros Et Eb Ea Es.
   assert (Hd : exists s',
     dispatch cfg c TBind msg o
-      (set_log s (LFrame c (FAck (m_id msg)) (is_clean s) :: log s)) = Ok tt s' /\
+      (set_log s (LFrame c (FAck (m_id msg)) (is_clean s) (now s) :: log s)) = Ok tt s' /\
     chan_w s' = chan_w s /\ chan_c s' = chan_c s /\ subs s' = subs s /\
     conns s' = update_conn c (set_bound (conn_of s c) (Some (a, side))) (conns s) /\
     usage_w s' = (if usage_on cfg
